@@ -727,6 +727,62 @@ pub fn gen_wideunion(r: &mut Rng, feat: u32) -> (Universe, Prob) {
     (u, Prob { reqs, cons: vec![], soft: vec![] })
 }
 
+/// Soft requirements that reject one another through a shared pair of packages: every version of `a`
+/// requires `b`, every version of `b` requires two different versions of `a` (so no `b` is installable);
+/// the soft list names versions of both packages in random order. A rejected soft requirement stays on the
+/// trail as an assignment that is only propagated during the next run; when that propagation stops at a
+/// conflict halfway through a watch list and the assignment survives, the rest of the list has to be
+/// visited later (F29).
+pub fn gen_softpend(r: &mut Rng, feat: u32) -> (Universe, Prob) {
+    let mut u = Universe::default();
+    let na = r.range(2, 3) as u32;
+    let nb = r.range(2, 3) as u32;
+    let mut pa = Pkg::default();
+    let mut pb = Pkg::default();
+    for i in 0..na {
+        let id = u.sols.len() as u32;
+        u.sols.push(Sol { name: 0, rank: i, deps: None });
+        pa.cands.push(id);
+    }
+    for i in 0..nb {
+        let id = u.sols.len() as u32;
+        u.sols.push(Sol { name: 1, rank: i, deps: None });
+        pb.cands.push(id);
+    }
+    if feat & F_HINTS != 0 && !r.chance(1, 4) {
+        pa.hint = Hint::All;
+    }
+    if feat & F_HINTS != 0 && r.chance(1, 4) {
+        pb.hint = Hint::All;
+    }
+    // version sets: 0 = any a, 1 = any b, then one per single version of a
+    u.vss.push(Vs { name: 0, matching: pa.cands.clone() });
+    u.vss.push(Vs { name: 1, matching: pb.cands.clone() });
+    let mut single = vec![];
+    for &x in &pa.cands {
+        u.vss.push(Vs { name: 0, matching: vec![x] });
+        single.push(u.vss.len() as u32 - 1);
+    }
+    for &x in &pa.cands {
+        u.sols[x as usize].deps = Some(Known { reqs: vec![Req::Single(1)], cons: vec![] });
+    }
+    for &y in &pb.cands {
+        let mut two = single.clone();
+        r.shuffle(&mut two);
+        two.truncate(2);
+        u.sols[y as usize].deps = Some(Known { reqs: two.into_iter().map(Req::Single).collect(), cons: vec![] });
+    }
+    let mut soft: Vec<u32> = pa.cands.iter().chain(pb.cands.iter()).copied().collect();
+    r.shuffle(&mut soft);
+    if r.chance(1, 4) {
+        let d = soft[0];
+        soft.push(d);
+    }
+    u.pkgs.push(pa);
+    u.pkgs.push(pb);
+    (u, Prob { reqs: vec![], cons: vec![], soft })
+}
+
 /// Long soft-requirement lists in which several consecutive entries are rejected early (Unknown
 /// dependencies, exclusions, requirements without candidates), over small cyclic universes: exercises
 /// the bookkeeping between successive run_sat invocations (decisions assigned false but not yet
@@ -874,6 +930,7 @@ pub fn gen_case(id: u64, seed: u64, class: &str, feat: u32) -> Case {
         "conflictc" => gen_conflict_with(&mut r, feat, false, true),
         "lostassert" => gen_lostassert(&mut r, feat),
         "wideunion" => gen_wideunion(&mut r, feat),
+        "softpend" => gen_softpend(&mut r, feat),
         "fanout" => gen_fanout(&mut r, feat),
         "softdeep" => gen_softdeep(&mut r, feat),
         "softrej" => gen_softrej(&mut r, feat),
